@@ -371,6 +371,9 @@ impl Environment {
                 }
             }
 
+            #[cfg(grass_verif)]
+            self.scopes
+                .verif_insert("envins", 0, name.node, is_global, in_semi_global_scope);
             self.scopes.insert_var(0, name.node, value);
             return Ok(());
         }
@@ -385,6 +388,10 @@ impl Environment {
         }
 
         self.scopes.last_variable_index = Some((name.node, index));
+
+        #[cfg(grass_verif)]
+        self.scopes
+            .verif_insert("envins", index, name.node, is_global, in_semi_global_scope);
 
         self.scopes.insert_var(index, name.node, value);
 
